@@ -24,13 +24,16 @@ RULE = (
     "output bytes, stderr. non-trivial = distinct argv / distinct (file, target, options)"
 )
 TRUSTED = [
-    "the ast translator harness/vh/flowlib.py (__main__.py -> Gen/ApiFlow.lean: convert, main, signatures, argparseTable)",
+    "the ast translator harness/vh/flowlib.py (__main__.py -> Gen/ApiFlow.lean: convert, main, signatures, argparseTable; "
+    "every except / suppress / errstate / seterr of the package -> Gen/Handlers.lean)",
 ]
 ASSUMPTIONS = [
     "argparse semantics for the option kinds used (value option, store_true, positionals); abbreviations (--inf), "
     "`--opt=value` and clustered short flags are not modelled (not generated)",
-    "numpy floating-point traps only turn silent inf/nan into exceptions, they never change a returned value "
-    "(tied by the subprocess search: exit 0 => same bytes as the untrapped API)",
+    "numpy floating-point traps only turn silent inf/nan into exceptions (numpy semantics); that no code of the package "
+    "intercepts such an exception without re-raising, nor changes the error mode, is theorem fp_traps_never_swallowed over "
+    "the generated handler table; the subprocess search additionally runs generated inputs that do raise floating-point "
+    "flags (zero cell volume, overflow, null shells in un-normalised Molden files)",
     "an exception leaving main() ends the interpreter with a traceback on stderr and exit status 1",
 ]
 TIME_LIMIT = {"quick": 900, "thorough": 3600}
@@ -39,6 +42,7 @@ TIME_LIMIT = {"quick": 900, "thorough": 3600}
 def translate(ctx):
     fl.translate_apiflow(ctx)
     fl.translate_registry(ctx)
+    fl.translate_handlers(ctx)
 
 
 def _impl_cli(argv):
@@ -224,9 +228,51 @@ def _cli_run(infile, outpath, many, infmt, outfmt, allow, pre):
     return p.returncode, content, p.stderr
 
 
+def _degenerate_inputs(rng):
+    """Generated inputs on which numpy raises a floating-point flag somewhere in the loader or writer — the only
+    inputs on which the trapping CLI and the non-trapping API can take different paths."""
+    import numpy as np
+
+    from .. import gto
+    from .. import vendorfiles as vf
+
+    out = {}
+    grid = " 2 2 2\n" + " ".join(["1.0"] * 8) + "\n"
+    out["CHGCAR.zerovol"] = ("zero volume\n 1.0\n 1.0 0.0 0.0\n 2.0 0.0 0.0\n 0.0 0.0 1.0\n H\n 1\nDirect\n"
+                             " 0.0 0.0 0.0\n\n" + grid)
+    out["huge.xyz"] = "1\nhuge\nH 1e308 0.0 0.0\n"
+    # Molden files with un-normalised contractions (the loader's last-resort repair) and a null shell (zero norm)
+    for k in range(2):
+        for _ in range(50):
+            case = vf.gen_true(rng, "unnorm", "molden", max_l=rng.choice([1, 2]))
+            if case is not None:
+                break
+        else:
+            continue
+        enc = vf.encode(case, "unnorm", rng)
+        last = max(sh["ic"] for sh in enc["shells"])
+        enc["shells"].append({"ic": last, "l": 0, "kind": "c", "exps": [1.0], "coefs": [0.0]})
+        # write_molden emits the shells grouped by centre in list order: the null shell's row comes after the rows
+        # of all shells written before it
+        order = [i for ia in range(len(case["zs"])) for i, sh in enumerate(enc["shells"]) if sh["ic"] == ia]
+        nrow_before = sum(len(gto.molden_labels(enc["shells"][i]["l"], enc["shells"][i]["kind"]))
+                          for i in order[: order.index(len(enc["shells"]) - 1)])
+        for key in ("Ca", "Cb"):
+            if enc[key] is not None:
+                enc[key] = np.insert(enc[key], nrow_before, 0.0, axis=0)
+        out[f"nullshell{k}.molden"] = vf.write_molden(case, enc, rng)
+    return out
+
+
 def check_case(case, work):
-    fname, target, many, explicit, allow, pre = case
-    infile = str(REPO / "iodata" / "test" / "data" / fname)
+    fname, target, many, explicit, allow, pre = case[:6]
+    if len(case) > 6:
+        gd = tempfile.mkdtemp(dir=work)
+        infile = os.path.join(gd, fname)
+        with open(infile, "w") as fh:
+            fh.write(case[6])
+    else:
+        infile = str(REPO / "iodata" / "test" / "data" / fname)
     if not os.path.exists(infile):
         return "skip", None
     d = tempfile.mkdtemp(dir=work)
@@ -275,6 +321,12 @@ def _cases(ctx):
             if target in VERBATIM:
                 e = True
             cases.append((fname, target, many, e, a, p))
+    for name, text in _degenerate_inputs(rng).items():
+        targets = ["molden", "fchk"] if name.endswith(".molden") else (["cube", "xyz"] if name.startswith("CHGCAR") else ["xyz", "pdb"])
+        for t in targets:
+            cases.append((name, t, False, False, rng.random() < 0.5, None, text))
+            if name.endswith(".molden"):
+                cases.append((name, t, False, True, True, None, text))
     return cases
 
 
